@@ -27,7 +27,7 @@ RULE = {
 REQUIRED = {
     "C05": {"iteration:teleop": 500, "iteration:auto": 500, "iteration:disabled": 500, "iteration:test": 300,
             "timing-checked": 2000, "overrun-catchup": 30, "mode-string-checked": 2000, "teleop-in-auto-iteration": 100,
-            "inherited-robot-class": 50},
+            "inherited-robot-class": 50, "fault-in-iteration-body-swallowed": 20},
     "C06": {"transition:teleop->auto": 20, "transition:auto->teleop": 20, "transition:teleop->disabled": 30,
             "transition:disabled->teleop": 30, "transition:auto->test": 10, "setup-checked": 300, "lifecycle-fault-swallowed": 30, "end:teleop": 10, "end:auto": 10,
             "end:disabled": 10, "end:test": 10},
@@ -37,11 +37,12 @@ REQUIRED = {
             "trace-equals-fault-free-twin": 200, "prefix-equals-fault-free-twin": 100, "fault-after-fms-change": 10},
     "C10": {"assign-enabled": 500, "reset-checked-at-arrival": 2000, "assign-disabled-dontcare": 50, "sentinel-assign": 50,
             "fault-in-reset-iteration": 20, "snapshot-checked": 20000,
-            "marker-redeclared-in-subclass": 30, "marker-shadowed-by-plain-attribute": 30},
+            "marker-redeclared-in-subclass": 30, "marker-shadowed-by-plain-attribute": 30, "two-components-one-class": 50,
+            "private-named-marker": 30},
     "C11": {"feedback-value-checked": 5000, "feedback-type-checked": 5000, "raised-getter-unchanged": 20,
             "hint:int": 50, "hint:float": 50, "hint:bool": 50, "hint:str": 50, "hint:int[]": 20, "hint:rot": 20, "hint:none": 50,
             "explicit-key": 50, "get_-prefix-stripped": 50, "mode:disabled": 200, "mode:test": 100,
-            "same-list-object-mutated": 100},
+            "same-list-object-mutated": 100, "string-return-hint": 100},
 }
 ASSUMPTIONS = {p: ["the robot thread is parked at the gate in NotifierDelay.wait() while the harness changes driver-station words and reads NetworkTables (simenv.py)",
                    "on_disable order among components, setup order, feedback order inside an iteration are not specified and are compared as sets"]
@@ -78,7 +79,7 @@ def gen_case(rng, pid, uid):
         c = {"has_setup": rng.random() < 0.7, "has_on_enable": rng.random() < 0.7, "has_on_disable": rng.random() < 0.7,
              "resets": [], "sentinels": [], "feedbacks": [], "inject": []}
         for j in range(rng.choice([0, 1, 1, 2, 3]) if pid == "C10" else rng.choice([0, 0, 1, 2])):
-            r = {"attr": f"r{j}", "default": rng.choice(defaults), "inherited": rng.random() < 0.3}
+            r = {"attr": f"r{j}" if rng.random() < 0.8 else f"_r{j}", "default": rng.choice(defaults), "inherited": rng.random() < 0.3}
             if not r["inherited"] and rng.random() < 0.25:
                 r["base_default"] = rng.choice([d for d in defaults if d != r["default"] or type(d) is not type(r["default"])])
             c["resets"].append(r)
@@ -94,6 +95,14 @@ def gen_case(rng, pid, uid):
             if other != cn and rng.random() < 0.25:
                 c["inject"].append(other)
         comps[cn] = c
+    if n >= 2 and rng.random() < (0.35 if pid == "C10" else 0.2):
+        # two components that are instances of ONE class (`left: Shooter; right: Shooter`)
+        import copy
+        a, b = rng.sample(cnames, 2)
+        comps[b] = copy.deepcopy(comps[a])
+        comps[b]["same_class_as"] = a
+        for cn in (a, b):
+            comps[cn]["inject"] = [x for x in comps[a]["inject"] if x not in (a, b)]
     robot_fbs = [_gen_fb(rng, fbnames, 10 + j, uid) for j in range(2) if rng.random() < p_fb]
     r = rng.random()
     if r < 0.12:
@@ -139,13 +148,17 @@ def gen_case(rng, pid, uid):
             cn, attr, _m = rng.choice(tracked)
             at(s, rng.randrange(0, max(1, total))).setdefault("assign", []).append([cn, attr, rng.choice([1, 2, "go", True, 0.25, None, 0, False])])
     # ---- faults
-    want_faults = pid == "C07" or (pid in ("C10", "C11") and rng.random() < 0.5) or (pid == "C06" and rng.random() < 0.3)
+    want_faults = (pid == "C07" or (pid in ("C10", "C11") and rng.random() < 0.5) or (pid == "C06" and rng.random() < 0.3)
+                   or (pid == "C05" and rng.random() < 0.25))
     if want_faults:
         spec["fms"] = rng.random() < 0.6 if pid == "C07" else True
         pool = sites["faultable"]
         if pid == "C06":
             # lifecycle sites only: with the FMS attached the bracket must survive a raising on_enable / on_disable / init hook
             pool = [x for x in pool if site_kind(x) in ("on_enable", "on_disable", "init", "mode.on_enable", "mode.on_disable")]
+        if pid == "C05":
+            # iteration-body sites only: with the FMS attached every other callback of the iteration still runs, in order
+            pool = [x for x in pool if owner_of_site(x) == "C05"]
         if pid == "C07" and rng.random() < 0.35:
             # the field connects / disconnects while the robot is running (also while it stays in one mode)
             spec["fms_changes"] = {str(rng.randrange(0, max(1, total))): (not spec["fms"]) if j == 0 else rng.random() < 0.5
@@ -157,13 +170,14 @@ def gen_case(rng, pid, uid):
                 break
             s = rng.choice(pool)
             pat = rng.choice(["first", "kth", "kth", "every"])
+            kind = rng.choices(["plain", "attr", "key", "base"], [70, 12, 8, 10])[0]
             if pat == "first":
-                at(s, 0)["raise"] = True
+                at(s, 0)["raise"] = kind
             elif pat == "kth":
-                at(s, rng.randrange(0, max(1, total // 2 + 1)))["raise"] = True
+                at(s, rng.randrange(0, max(1, total // 2 + 1)))["raise"] = kind
             else:
                 for i in range(total + 12):
-                    at(s, i)["raise"] = True
+                    at(s, i)["raise"] = kind
     return spec
 
 
@@ -177,7 +191,8 @@ def _gen_fb(rng, fbnames, j, uid):
     hint = rng.choice(HINTS)
     return {"name": name, "key": key, "hint": hint, "variant": rng.randrange(3),
             "nohint_kind": rng.choice(["float", "bool", "str", "int"]),
-            "same_object": bool(hint and hint.endswith("[]") and rng.random() < 0.4)}
+            "same_object": bool(hint and hint.endswith("[]") and rng.random() < 0.4),
+            "string_hint": bool(hint) and rng.random() < 0.3}
 
 
 def decl_order(spec):
@@ -264,7 +279,7 @@ def expected_chunks(spec):
 
     chunks = []
     meta = []
-    startup = [("set", [f"{c}.ctor" for c in order], "C06"), ("set", [f"{c}.setup" for c in order if comps[c]["has_setup"]], "C06")]
+    startup = [("set", [f"{comps[c].get('same_class_as', c)}.ctor" for c in order], "C06"), ("set", [f"{c}.setup" for c in order if comps[c]["has_setup"]], "C06")]
     prev = None
     for si, (m, dwell) in enumerate(spec["history"]):
         for k in range(dwell):
@@ -421,16 +436,18 @@ def check_mode_and_timing(spec, run, V, acc):
                 if e[5] != names[m["mode"]]:
                     V.add("C05", "robot-mode-topic", f"/robot/mode is {e[5]!r} inside {e[1]} while running {m['mode']} (iteration #{ci})")
                     return
-    # timing: iteration k>=1 of a segment starts at max(T + k*P, end of the previous body)
+    # timing: within a mode one iteration per P of FPGA time: iteration k>=1 of a segment starts at
+    # max(T + k*P, end of the previous body), where T is the instant the segment's first iteration body started
     seg_of = {}
     for ci, m in enumerate(meta):
         seg_of.setdefault(m["seg"], []).append(ci)
-    if len(delays) < len([s for s in seg_of if seg_of[s][0] < len(chunks)]):
-        return
     for si, cis in sorted(seg_of.items()):
-        if si >= len(delays):
+        if cis[0] >= len(chunks):
             break
-        T, period_s, _h = delays[si]
+        body0 = next((e for e in chunks[cis[0]] if e[0] == "cb" and owner_of_site(e[1]) == "C05"), None)
+        if body0 is None:
+            continue
+        T = body0[3]
         for k, ci in enumerate(cis):
             if ci >= len(chunks) or k == 0:
                 continue
@@ -497,6 +514,8 @@ def check_faults(spec, run, V, acc, fired, n_ok):
         V.ev(f"swallowed-site-mode:{k}:{md}")
         if k in ("on_enable", "on_disable", "init", "mode.on_enable", "mode.on_disable"):
             V.ev("lifecycle-fault-swallowed")
+        else:
+            V.ev("fault-in-iteration-body-swallowed")
     if first_prop is None:
         # liveness after the last fault
         idx_last = tl[-1][0]
@@ -570,6 +589,10 @@ def check_resets(spec, run, V, acc):
             tracked.append((cn, r["attr"], True, r["default"]))
             if "base_default" in r:
                 V.ev("marker-redeclared-in-subclass")
+            if r["attr"].startswith("_"):
+                V.ev("private-named-marker")
+        if c.get("same_class_as"):
+            V.ev("two-components-one-class")
         for s in c["sentinels"]:
             tracked.append((cn, s["attr"], False, s["value"]))
             if "shadowed_marker_default" in s:
@@ -708,6 +731,8 @@ def check_feedbacks(spec, run, V, acc):
                     return
             if fb.get("same_object"):
                 V.ev("same-list-object-mutated")
+            if fb.get("string_hint"):
+                V.ev("string-return-hint")
             if fb.get("key") is not None:
                 V.ev("explicit-key")
             elif fb["name"].startswith("get_"):
